@@ -5,6 +5,7 @@ import (
 	"os"
 	"go/types"
 	"sort"
+	"strconv"
 	"strings"
 	"time"
 
@@ -113,6 +114,7 @@ type Exec struct {
 	cfg    Config
 
 	firstNewViolation time.Time
+	qcache            map[string]cachedAnswer
 
 	// exploration state (persists across paths)
 	trace   []choicePoint
@@ -232,6 +234,53 @@ func (ex *Exec) checkSat(extra *smt.Term) (smt.Result, map[string]uint64) {
 	if extra != nil {
 		as = append(as, extra)
 	}
+	// identical queries (the same set of hash-consed constraints, reached through a different
+	// schedule) are answered from a per-case cache: same formula, same verdict and model
+	key := ex.queryKey(extra)
+	if c, ok := ex.qcache[key]; ok {
+		ex.solver.Stats.CacheHits++
+		return c.r, c.m
+	}
+	r, m := ex.checkSatUncached(as)
+	if r != smt.Unknown {
+		if ex.qcache == nil {
+			ex.qcache = map[string]cachedAnswer{}
+		}
+		if len(ex.qcache) < 2000000 {
+			ex.qcache[key] = cachedAnswer{r, m}
+		}
+	}
+	return r, m
+}
+
+type cachedAnswer struct {
+	r smt.Result
+	m map[string]uint64
+}
+
+func (ex *Exec) queryKey(extra *smt.Term) string {
+	ids := make([]int, 0, len(ex.pc)+1)
+	for _, t := range ex.pc {
+		ids = append(ids, t.ID)
+	}
+	if extra != nil {
+		ids = append(ids, extra.ID)
+	}
+	sort.Ints(ids)
+	b := make([]byte, 0, len(ids)*4)
+	prev := -1
+	for _, id := range ids {
+		if id == prev {
+			continue
+		}
+		prev = id
+		b = strconv.AppendInt(b, int64(id), 36)
+		b = append(b, ',')
+	}
+	return string(b)
+}
+
+func (ex *Exec) checkSatUncached(as []*smt.Term) (smt.Result, map[string]uint64) {
 	ex.solver.NoTactic = ex.cfg.ArithFirst && ex.queryTimeout == 0
 	to := ex.queryTimeout
 	if to == 0 && ex.cfg.Cvc5Fallback {
